@@ -116,7 +116,7 @@ fn geo_strategy(tier: Tier) -> BoxedStrategy<MultiCase> {
             let msg = prop_oneof![14 => ascii, 1 => wide];
             let msg2 = msg.clone();
             let spec = (proptest::option::weighted(0.8, 1u64..50), prop_oneof![3 => Just(2u8), 2 => Just(0u8), 1 => 1u8..5], msg.clone())
-                .prop_map(|(len, on_finish, msg)| BarSpec { two_lines: false, len, on_finish, msg });
+                .prop_map(|(len, on_finish, msg)| BarSpec { two_lines: false, len, on_finish, msg, key_nl: false });
             let log = prop_oneof![3 => "[a-z]{1,4}", 1 => Just(String::new()), 1 => (0usize..3, -1i32..=1).prop_map(move |(k, d)| "l".repeat(((k * c) as i32 + d).max(0) as usize)), 1 => (c / 2 + 1..c + 2).prop_map(move |n| if c % 2 == 0 { "\u{6357}".repeat(n) } else { "l".repeat(n) }),
                 // several lines in one draw: a line that exactly fills k rows, a blank line, another line
                 1 => (1usize..3, "[a-z]{0,3}").prop_map(move |(k, z)| format!("{}\n\n{z}", "f".repeat(k * c)))];
@@ -139,7 +139,7 @@ fn geo_strategy(tier: Tier) -> BoxedStrategy<MultiCase> {
         .prop_map(|(rows, cols, limiter, ops)| match limiter {
             None => MultiCase { rows, cols, hz: None, step_ms: 2, ops, final_drops: vec![] },
             Some((hz, step_ms)) => {
-                let mut all = vec![MOp::Add(BarSpec { two_lines: false, len: Some(5), on_finish: 0, msg: String::new() })];
+                let mut all = vec![MOp::Add(BarSpec { two_lines: false, len: Some(5), on_finish: 0, msg: String::new(), key_nl: false })];
                 all.extend(std::iter::repeat(MOp::Tick(0)).take(22));
                 all.extend(ops);
                 MultiCase { rows, cols, hz: Some(hz), step_ms, ops: all, final_drops: vec![] }
@@ -158,7 +158,7 @@ fn bottom_strategy(tier: Tier) -> BoxedStrategy<MultiCase> {
             let c = cols as usize;
             let s = || any::<u16>();
             let msg = (0usize..3, -2i32..=2).prop_map(move |(k, d)| "w".repeat(((k * c) as i32 + d - 5).max(0) as usize));
-            let spec = (proptest::option::weighted(0.8, 1u64..50), prop_oneof![3 => Just(2u8), 2 => Just(0u8)], msg.clone()).prop_map(|(len, on_finish, msg)| BarSpec { two_lines: false, len, on_finish, msg });
+            let spec = (proptest::option::weighted(0.8, 1u64..50), prop_oneof![3 => Just(2u8), 2 => Just(0u8)], msg.clone()).prop_map(|(len, on_finish, msg)| BarSpec { two_lines: false, len, on_finish, msg, key_nl: false });
             let op = prop_oneof![
                 3 => spec.prop_map(MOp::Add),
                 3 => s().prop_map(MOp::Remove),
@@ -184,6 +184,77 @@ fn bottom_strategy(tier: Tier) -> BoxedStrategy<MultiCase> {
                 all.push(op);
             }
             MultiCase { rows: 16, cols: cols as u16, hz: None, step_ms: 2, ops: all, final_drops: vec![] }
+        })
+        .boxed()
+}
+
+/// Rows that come from a line break written by a custom key (not by the template or the message) are rows
+/// of the frame like any other: top alignment, a terminal that is always taller than the region (at most four
+/// bars of at most 3 + 1 rows on 40 rows), so that only the row accounting is exercised.
+fn run_key_nl(c: &MultiCase) -> CaseResult {
+    let _clk = clock::Armed::new();
+    let mut it = Interp::new(c);
+    let mut v = Verdict::default();
+    let (mut wraps, mut redrawn) = (false, 0usize);
+    for (i, op) in c.ops.iter().enumerate() {
+        clock::advance(Duration::from_millis(2));
+        let out = catch(|| it.step(op)).map_err(|p| Fail::new("panic", format!("op #{i} {op:?} panicked: {p} ({}x{} terminal, ops {:?})", it.rows, it.cols, &c.ops[..=i])))??;
+        if out.skipped {
+            continue;
+        }
+        let ctx = format!("op #{i} {op:?} ({}x{} terminal, ops {:?})", it.rows, it.cols, &c.ops[..=i]);
+        it.check_frames(&out, &ctx).map_err(|f| Fail::new(if it.stale_reap_seen { "geometry_stale_reap" } else { "geometry_key_newline" }, f.msg))?;
+        if !out.frames.is_empty() {
+            let full = it.model.frame();
+            wraps |= full.iter().any(|l| console::measure_text_width(l) > it.cols);
+            if it.model.entries.iter().any(|e| e.drawn.as_ref().map_or(false, |d| d.len() >= 2)) {
+                redrawn += 1;
+            }
+        }
+    }
+    it.teardown()?;
+    v.nontrivial = redrawn >= 2;
+    v.label_if(redrawn >= 2, "frame_with_a_key_written_line_break_redrawn");
+    v.label_if(wraps, "line_wraps");
+    Ok(v)
+}
+
+fn key_nl_strategy(tier: Tier) -> BoxedStrategy<MultiCase> {
+    let n = tier.pick(24, 40);
+    (4u8..=40)
+        .prop_flat_map(move |cols| {
+            let c = cols as usize;
+            let s = || any::<u16>();
+            let msg = (0usize..3, -2i32..=2).prop_map(move |(k, d)| "w".repeat(((k * c) as i32 + d - 5).max(0) as usize));
+            let spec = (proptest::option::weighted(0.8, 1u64..50), prop_oneof![3 => Just(2u8), 2 => Just(0u8), 1 => 1u8..5], msg.clone(), proptest::bool::weighted(0.6))
+                .prop_map(|(len, on_finish, msg, key_nl)| BarSpec { two_lines: false, len, on_finish, msg, key_nl });
+            let op = prop_oneof![
+                3 => spec.prop_map(MOp::Add),
+                2 => s().prop_map(MOp::Remove),
+                6 => s().prop_map(MOp::Tick),
+                2 => (s(), 1u64..4).prop_map(|(i, d)| MOp::Inc(i, d)),
+                5 => (s(), msg).prop_map(|(i, m)| MOp::SetMessage(i, m)),
+                2 => s().prop_map(MOp::Finish),
+                1 => s().prop_map(MOp::FinishAndClear),
+                2 => s().prop_map(MOp::Drop),
+                2 => "[a-z]{1,4}".prop_map(MOp::MpPrintln),
+                1 => Just(MOp::MpClear),
+            ];
+            (Just(cols), proptest::collection::vec(op, 0..n))
+        })
+        .prop_map(|(cols, ops)| {
+            let mut all = vec![];
+            let mut bars = 0;
+            for op in ops {
+                if matches!(op, MOp::Add(_)) {
+                    bars += 1;
+                    if bars > 4 {
+                        continue;
+                    }
+                }
+                all.push(op);
+            }
+            MultiCase { rows: 40, cols: cols as u16, hz: None, step_ms: 2, ops: all, final_drops: vec![] }
         })
         .boxed()
 }
@@ -217,6 +288,17 @@ pub fn property() -> Property {
             run: run_bottom,
             signature: crate::props::c02::signature,
             essential: &["line_wraps", "region_shrinks_under_bottom_alignment"],
+            workers: w,
+            decode: None,
+        }),
+        Box::new(Gen::<MultiCase> {
+            name: "key_newline",
+            rule: "MultiProgress on a 40-row x 4..40-column terminal, at most four bars whose messages wrap over 1-3 rows and of which 60% get one more line from a custom key that writes a line break (a row that neither the template nor the message announces); ops add/remove/tick/inc/set_message/finish/finish_and_clear/drop/println/clear; full-screen oracle at every flush: every redraw and clear removes all rows of the old frame, the kept rows of dropped bars are exact; non-trivial = a frame with such a line was redrawn at least twice",
+            strategy: key_nl_strategy,
+            cases: |t| t.pick(4_000, 200_000),
+            run: run_key_nl,
+            signature: crate::props::c02::signature,
+            essential: &["frame_with_a_key_written_line_break_redrawn", "line_wraps"],
             workers: w,
             decode: None,
         })],
